@@ -252,7 +252,7 @@ def _restores(d, lp, ckpts, k):
     return ok
 
 
-def _source_times(ctx):
+def _source_times(ctx, rule="R4.7"):
     """Sibling agreement: the reverse updates evaluate each source at the time the forward updates did."""
     ix = ctx.index
     n = 0
@@ -288,8 +288,8 @@ def _source_times(ctx):
         f_rows = [(b, t) for b, t, _ in tables[fwd]]
         r_rows = [(b, t) for b, t, _ in tables[rev]]
         inv_ok = all(i == "False" for _, _, i in tables[fwd]) and all(i == "True" for _, _, i in tables[rev])
-        ctx.ob("R4.7", f"fdtd.update.{rev}:source-times", f_rows == r_rows and inv_ok and len(f_rows) == 2, f"every source.{fwd} call of the reverse update takes the time argument of the corresponding forward call (always-on and switched branch alike) with inverse=True", tables[rev], tables[fwd])
-    ctx.require_count("R4.7 source call sites", n, 8)
+        ctx.ob(rule, f"fdtd.update.{rev}:source-times", f_rows == r_rows and inv_ok and len(f_rows) == 2, f"every source.{fwd} call of the reverse update takes the time argument of the corresponding forward call (always-on and switched branch alike) with inverse=True", tables[rev], tables[fwd])
+    ctx.require_count(f"{rule} source call sites", n, 8)
 
 
 def run(ctx):
